@@ -57,6 +57,19 @@ static std::string do_useq(const std::string& ops) {
             auto f = [&] { u.read(reinterpret_cast<char*>(b.data()), n); };
             if (pr) { r = probe(f, [&] { u.abort(); }) ? "u returned" : "u block"; out += (out.empty() ? "" : " | ") + r; break; } f();
             long g = long(u.gcount()); r += "bytes=" + to_hex(b.data(), size_t(g > 0 ? g : 0)) + " "; }
+        else if (k == "demand") {   // demand:<n>:w:<hex> | demand:<n>:wc:<size>:<hex> : a read of n blocks, then a write is tried
+            long n = strtol(a[1].c_str(), nullptr, 10); std::vector<uint8_t> rb(size_t(n > 0 ? n : 0) + 1, 0xCD);
+            std::atomic<bool> rdone(false), wdone(false);
+            std::thread tr([&] { u.read(reinterpret_cast<char*>(rb.data()), n); rdone = true; });
+            for (int i = 0; i < PROBE_MS && !rdone; i++) std::this_thread::sleep_for(std::chrono::milliseconds(1));
+            if (rdone) { tr.join(); out += (out.empty() ? "" : " | ") + std::string("u demand read-returned"); break; }
+            std::vector<uint8_t> b = unhex(a.size() > 3 ? a.back() : ""); auto lc = std::make_shared<LogContainer>();
+            bool cont = a.size() > 2 && a[2] == "wc";
+            if (cont) { lc->uncompressedFile.assign(b.begin(), b.end()); lc->uncompressedFileSize = uint32_t(strtoul(a[3].c_str(), nullptr, 10)); }
+            std::thread tw([&] { if (cont) u.write(lc); else u.write(reinterpret_cast<const char*>(b.data()), std::streamsize(b.size())); wdone = true; });
+            for (int i = 0; i < PROBE_MS && !wdone; i++) std::this_thread::sleep_for(std::chrono::milliseconds(1));
+            bool w = wdone; u.abort(); tr.join(); tw.join();
+            out += (out.empty() ? "" : " | ") + std::string(w ? "u demand w returned" : "u demand w block"); break; }
         else if (k == "sk") u.seekg(strtoll(a[1].c_str(), nullptr, 10));
         else if (k == "nlc") u.nextLogContainer();
         else if (k == "drop") u.dropOldData();
